@@ -3,6 +3,7 @@ package node
 import (
 	"errors"
 
+	"github.com/youzan/ZanRedisDB/internal/verifhook"
 	"github.com/youzan/ZanRedisDB/raft/raftpb"
 	"github.com/youzan/ZanRedisDB/snap"
 	"github.com/youzan/ZanRedisDB/wal"
@@ -35,6 +36,7 @@ func (st *raftPersistStorage) SaveSnap(snap raftpb.Snapshot) error {
 	if err != nil {
 		return err
 	}
+	verifhook.Crash("persist.snapfile_written")
 	return st.WAL.SaveSnapshot(walsnap)
 }
 
